@@ -21,9 +21,11 @@ def run(repo: Repo, chk: Check) -> None:
     chk.scope_decides = (
         "O1 both chain walks of compute_l2_key terminate with at most 31 KDF steps each (loop certificates on intervals established by the "
         "range guards); O2 a raise is taken exactly on the sign vectors where the seed position is <lex the requested one (no key for an "
-        "uncovered position, no spurious rejection); O3 recipe shape: label, length 64, context constants (-1,-1 / 31,-1||SD / l1,-1 / l1,l2), "
-        "decrement before derivation, chaining on the same level's key, reseed from the L1 key at l2 = 31, context serialisation "
-        "RKID||L0||L1||L2 as 4 byte little-endian signed; O4 the envelope conventions (pre-decrement and reseed conditions) as truth tables."
+        "uncovered position, no spurious rejection); O3 chain semantics of compute_l2_key: each walk loop is summarised (recognised while / "
+        "for-range templates), the control flow composed path by path, and for every covered valuation of a boundary grid of (envelope L1, L2, "
+        "requested L1, L2) - all 32^4 in the thorough tier - the returned term expands to the envelope's seed key followed by exactly the "
+        "MS-GKDI 3.1.4.1.2 steps (label, 512 bit, context RKID||L0||L1||L2; pre-decrement and reseed conventions included); the L0/L1 seed "
+        "recipe and the context serialisation (4 byte little-endian signed) as tables."
     )
     chk.scope_not = "equality of the derived bytes with the MS-GKDI chain (values of HMAC outputs)."
     chk.trusted = ["cryptography's KBKDFHMAC", "MS-GKDI 3.1.4.1.2 recipe transcribed in this rule"]
@@ -58,9 +60,9 @@ def l2_obligations(repo: Repo, chk: Check) -> None:
         ok = c.kind in ("V-COUNT-DOWN", "V-RANGE") and n is not None and n <= 31
         chk.ob("O1", site, ok, f"{c.kind}: {c.why} ({c.bound})" if ok else f"loop is certified {c.kind} but not bounded by 31 steps ({c.why}; bound {c.bound})")
     chk.require_min("chain walk loops", 2)
-    cover_guard(repo, chk, f)
-    recipe_l2(repo, chk, f)
-    conventions(repo, chk, f)
+    from .chain import chain_semantics
+
+    chain_semantics(repo, chk, f, "O3", full=chk.tier == "thorough")
 
 
 # ------------------------------------------------------------------------- O2
@@ -264,7 +266,6 @@ def recipe_l2(repo: Repo, chk: Check, f: Func) -> None:
     rets = [n for n in body_nodes(f.node) if isinstance(n, ast.Return)]
     okr = len(rets) == 1 and unparse(rets[0].value) == l2k
     chk.ob("O3", Site.of(f, rets[0] if rets else None, None if rets else "return"), okr, "returns the L2 key")
-    chk.require_min("kdf sites", 3)
     del rd
 
 
